@@ -18,6 +18,7 @@ func init() {
 			"R06.4 AddRoute always extends the consumes list by the API default unless the list as spelled already contains it, and builds the consumer table from the normalised final list. " +
 			"R06.2 also: both entry points decide the content type before the response format. " +
 			"R06.1 also: the gate is skipped only when HasBody answered false (or an earlier stage refused the request), in both entry points. " +
+			"R06.3 also: the matched route (whose Consumer the gate fills once) is allocated per lookup. " +
 			"NOT decided: which header strings mime.ParseMediaType accepts; what a consumer does with the bytes.",
 		Assumptions: []string{"mime.ParseMediaType lower-cases the media type and strips parameters as documented", "swag.ContainsStringsCI is a case-insensitive membership test"},
 		Run:         runC06,
